@@ -2,7 +2,9 @@
   C05 line-protocol driver: evaluates the model of Model.lean with hardware doubles.
   Doubles travel as decimal 64-bit patterns, `nan` stands for any NaN, `u` for "no value".
 
-    soe <mae|rmae|mse|count> <step> <n> (<out|u> <target> <difficulty>)*n  -> fit <v> diff d1 … dn
+    soe <mae|rmae|mse|count> <step> <n> (<out|u> <target> <difficulty>)*n  -> fit <v> diff d1 … dn ;; <gen>
+        the answer of the hand-written model, then (after ` ;; `) the answer obtained with the functors
+        GENERATED from the clang AST (Gen.lean, `FloatOps Float`): `=` when it is the same text
     cnt <n> (<tag> <label> <difficulty>)*n                                   -> fit <v> diff d1 … dn
     gau <classes> <n> (<tag> <sureness> <label> <difficulty>)*n              -> fit <v> diff d1 … dn
     csoe <penalty> <kind> <step> <n> rows…  (constrained evaluator)             -> fitv 2 v1 v2 diff d1 … dn
@@ -19,6 +21,7 @@
     cpsoe <ptype> <penalty> <kind> <step> <n> rows…  (constrained evaluator, typed penalty)       -> fitv 2 v1 v2 diff …
 -/
 import Vita.C05.Extra
+import Vita.C05.Gen
 import Vita.Common.Rng
 open Vita.C05
 
@@ -124,6 +127,26 @@ def showFit (fit : List Float) (diff : List Nat) : String :=
 def showFitV (fit : List Float) : String :=
   "fitv " ++ toString fit.length ++ String.join (fit.map (fun f => " " ++ showF f))
 
+/-- `sum_of_errors_impl` with the GENERATED functor and the GENERATED `issmall` (difficulty test):
+    the loop of Model.lean instantiated with them -/
+def genLoop (k : ErrKind) (step : Nat) : List (Ex Float) → Float × List (Ex Float) := fun d =>
+  let rec go : List (Ex Float) → Nat → Float × Float → Float × List (Ex Float)
+    | [], _, s => (s.1, [])
+    | e :: rest, 0, s =>
+      if rest.length + 1 < step then (s.1, e :: rest)
+      else
+        let err := Gen.errF k e.out e.target
+        let r := go rest (step - 1) (meanStep s err)
+        (r.1, (if Gen.issmall err then e else { e with difficulty := e.difficulty + 1 }) :: r.2)
+    | e :: rest, k' + 1, s =>
+      let r := go rest k' s
+      (r.1, e :: r.2)
+  go d 0 (0.0, 0.0)
+
+def genSoe (k : ErrKind) (step : Nat) (d : List (Ex Float)) : String :=
+  let r := genLoop k step d
+  "fit " ++ showF (-r.1) ++ " diff" ++ String.join (r.2.map (fun e => " " ++ toString e.difficulty))
+
 def answer (line : String) : String :=
   match line.trimAscii.toString.splitOn " " with
   | "soe" :: k :: step :: n :: rest =>
@@ -131,7 +154,11 @@ def answer (line : String) : String :=
     | some k, some step, some n =>
       if step == 0 then "bad-op" else
       match parseEx n rest with
-      | some d => let r := sumOfErrors (errF k) step d; showFit r.1 (r.2.map (·.difficulty))
+      | some d =>
+        let r := sumOfErrors (errF k) step d
+        let m := showFit r.1 (r.2.map (·.difficulty))
+        let g := genSoe k step d
+        m ++ " ;; " ++ (if g == m then "=" else g)
       | none => "bad-op"
     | _, _, _ => "bad-op"
   | "csoe" :: p :: k :: step :: n :: rest =>
@@ -141,8 +168,12 @@ def answer (line : String) : String :=
       match parseEx n rest with
       | some d =>
         let r := sumOfErrors (errF k) step d
-        showFitV (constrainedEval p r.1) ++ " diff" ++
+        let m := showFitV (constrainedEval p r.1) ++ " diff" ++
           String.join (r.2.map (fun e => " " ++ toString e.difficulty))
+        let rg := genLoop k step d
+        let g := showFitV (constrainedEval p [-rg.1]) ++ " diff" ++
+          String.join (rg.2.map (fun e => " " ++ toString e.difficulty))
+        m ++ " ;; " ++ (if g == m then "=" else g)
       | none => "bad-op"
     | _, _, _, _ => "bad-op"
   | "cnt" :: n :: rest =>
@@ -212,8 +243,12 @@ def answer (line : String) : String :=
       match parseEx n rest with
       | some d =>
         let r := sumOfErrors (errF k) step d
-        showFitV (constrainedEvalP p r.1) ++ " diff" ++
+        let m := showFitV (constrainedEvalP p r.1) ++ " diff" ++
           String.join (r.2.map (fun e => " " ++ toString e.difficulty))
+        let rg := genLoop k step d
+        let g := showFitV (constrainedEvalP p [-rg.1]) ++ " diff" ++
+          String.join (rg.2.map (fun e => " " ++ toString e.difficulty))
+        m ++ " ;; " ++ (if g == m then "=" else g)
       | none => "bad-op"
     | _, _, _, _ => "bad-op"
   | "pen" :: ty :: v :: k :: rest =>
@@ -222,7 +257,10 @@ def answer (line : String) : String :=
     | _, _, _ => "bad-op"
   | ["small", v] =>
     match parseF v with
-    | some v => if issmall v then "1" else "0"
+    | some v =>
+      let m := if issmall v then "1" else "0"
+      let g := if Gen.issmall v then "1" else "0"
+      m ++ " ;; " ++ (if g == m then "=" else g)
     | none => "bad-op"
   | _ => "bad-op"
 
